@@ -93,11 +93,12 @@ const (
 // ArgSpec is one option value. Option values are created once per world and
 // may be used by several operations (and threads).
 type ArgSpec struct {
-	Kind  string `json:"kind"`
-	Label Label  `json:"label,omitempty"` // named/typed: label of the supplied value (Type concrete)
-	Spell string `json:"spell,omitempty"` // named: the name as spelled by the caller (any casing)
-	Party int    `json:"party,omitempty"` // conv/convfunc: index into World.Parties
-	Gen   *Gen   `json:"gen,omitempty"`
+	Kind   string `json:"kind"`
+	Label  Label  `json:"label,omitempty"`   // named/typed: label of the supplied value (Type concrete)
+	Spell  string `json:"spell,omitempty"`   // named: the name as spelled by the caller (any casing)
+	Party  int    `json:"party,omitempty"`   // conv/convfunc: index into World.Parties
+	NilPad bool   `json:"nil_pad,omitempty"` // convfunc: ConverterFunc(nil, f, nil)
+	Gen    *Gen   `json:"gen,omitempty"`
 	// Filter: accepted pool types. Style 0 raw func, 1 FilterOr(FilterType...),
 	// 2 FilterAnd(FilterOr(...), always-true).
 	Filter      []int `json:"filter,omitempty"`
@@ -197,7 +198,10 @@ func (w World) Clone() World {
 
 // names used for named slots and values.
 var Names = []string{"a", "b", "c", "d", "alpha", "beta"}
-var Subs = []string{"s1", "s2", "s3"}
+
+// Subs[:2] are the everyday subtypes; the rest are legal oddities (a case
+// variant of s1, a percent sign, an equals sign) drawn rarely.
+var Subs = []string{"s1", "s2", "s3", "S1", "p%d", "k=v"}
 
 func spellName(n string, sp int) (field, tagName string) {
 	switch sp % 3 {
